@@ -282,7 +282,7 @@ impl Sim {
         }
         lpos.push(n);
         let overrides = case.overrides.iter().map(|(c, l, a)| ((*c, *l), *a)).collect();
-        let budget = 200 + 60 * (case.tokens.len() + 2) * (meta.model.rules.len() + 2);
+        let budget = 200 + 25 * (case.tokens.len() + 2) * (meta.model.rules.len() + 2);
         Sim(Rc::new(SimInner {
             meta,
             case,
